@@ -10,12 +10,8 @@ FINDINGS = [
   "a client-selected id next to a fragment on the same level is registered for scrubbing (the fragment gets a helper id of its own) and disappears from the response"),
  ("C01", "id-directive,directives", "C01/errors-nonempty", "id-directive",
   "a client-selected `id @skip(if: true)` counts as present, no helper id is added, stitching fails with 'could not find the id'"),
- ("C01", "root-typename", "C01/errors-nonempty", "root-typename",
-  "{ __typename } at the root is routed to the internal pseudo service and answered with a URL parse error"),
  ("C01", "node-root", "C01/data-missing-key", "node-root",
   "root node(id:) lookups: client-selected id/__typename scrubbed, fields of other services missing"),
- ("C01", "weird-ids", "C01/errors-nonempty", "weird-ids",
-  "entity ids containing ':' or '#' break the insertion point encoding field:index#id"),
  ("C01", "unions,abstract-frags", "C01/data-missing-key", "unions",
   "fields of union members owned by another service are not stitched (whole list pruned)"),
  ("C01", "interfaces,abstract-frags,abstract-frag-meta,typename", "C01/data-unexpected-key", "abstract-frag-meta",
